@@ -211,15 +211,15 @@ def run(ctx):
                 "in real runs; distinct = (K, n, component, eta grid point) / run config")
     ctx.assumptions = ["scipy.stats distributions as installed", "the 1e-10 floor on the returned value is a numerical guard"]
     shards = 16
-    tasks = [{"seed": ctx.seed, "shard": i, "count": 320 if quick else 6000} for i in range(shards)]
+    tasks = [{"seed": ctx.seed, "shard": i, "count": 320 if quick else 20000} for i in range(shards)]
     ctx.map("checks.c13", "param_task", tasks, timeout=3000)
     rng = np.random.default_rng([ctx.seed, 1313])
     inv = []
-    for i in range(4 if quick else 20):
+    for i in range(4 if quick else 40):
         n = int(rng.integers(2, 12))
         inv.append({"a": float(np.round(rng.uniform(1.2, 4.0), 2)), "b": float(np.round(rng.uniform(0.5, 3.0), 2)),
                     "K": int(rng.integers(1, n + 1)), "n": n, "targets": [0.3, 1.1, 3.7]})
     ctx.map("checks.c13", "invariance_task", inv, timeout=3000)
-    c19.run_configs(ctx, 160 if quick else 3000, "conc")
+    c19.run_configs(ctx, 160 if quick else 8000, "conc")
     if ctx.counters.get("concentration_updates_observed", 0) < 50:
         ctx.inconc("call site observed fewer than 50 times")
